@@ -323,8 +323,9 @@ def init_params(cls_init: FuncInfo):
     return list(zip(params, defaults))
 
 
-def symbolic_hyperparams(ex, P, cls: ClassInfo, overrides=None):
-    """Keyword arguments for cls(...) with every numeric hyper-parameter symbolic."""
+def symbolic_hyperparams(ex, P, cls: ClassInfo, overrides=None, symbolic_bools=False):
+    """Keyword arguments for cls(...) with every numeric hyper-parameter symbolic (and, on request, every boolean one
+    undecided: both of its values are explored)."""
     overrides = overrides or {}
     init = P.lookup_method(cls, "__init__")
     kw = {}
@@ -343,7 +344,7 @@ def symbolic_hyperparams(ex, P, cls: ClassInfo, overrides=None):
             if c is None:
                 kw[name] = NONE
             elif isinstance(c, bool):
-                kw[name] = Num(None, (), "bool", cond=Cond.const(c))
+                kw[name] = Num(None, (), "bool", cond=Cond("opq", f"hyper:{name}") if symbolic_bools else Cond.const(c), meta={"hyper": name})
             elif isinstance(c, int):
                 kw[name] = Num(sym(name), (), "int", meta={"hyper": name})
             elif isinstance(c, float):
